@@ -100,6 +100,22 @@ Theorem C04_refuted_midpoint_overflow : refuted v_unsafe_mid.
 Proof. exact rcb_c04_refuted_overflow. Qed.
 Print Assumptions C04_refuted_midpoint_overflow.
 
+(* FALSE at HEAD beyond the binary32 range.  C04_rcb_split_balanced needs
+   [coords_in_f32_range] (finite binary32 images).  On the full contract
+   "finite f64 coordinates" the statement stays meaningful -- the points that
+   share the image +inf are one group of equal binary32 coordinate -- but it
+   is false of the current search (faithful model, vm_compute; replayed on the
+   implementation: x = 0,1,2,3,1e39 -> one part; x = -1e39,0,1,2,3 -> 4 | 1):
+   an infinite box bound makes the midpoint infinite or NaN, the interval is
+   exhausted at once, the only probe is made at max, and a point at +inf can
+   never be the pivot.  Totality and the tree structure hold there
+   (C03_rcb_total_finite_f64, C03_rcb_bisect_tree_finite_f64). *)
+Theorem C04_refuted_beyond_f32_plus : refuted_nonnan head_variant.
+Proof. exact rcb_c04_refuted_beyond_f32_plus. Qed.
+Theorem C04_refuted_beyond_f32_minus : refuted_nonnan head_variant.
+Proof. exact rcb_c04_refuted_beyond_f32_minus. Qed.
+Print Assumptions C04_refuted_beyond_f32_minus.
+
 (* non-vacuity: an outlier input satisfies the premises that can be computed,
    the model returns the balanced 3 | 3 and the checker accepts it *)
 Definition ex_pts4 : list (list spec_float) :=
